@@ -32,6 +32,8 @@ var planVars = map[string]bool{"helloCmd": true, "init": true, "addClientSetInfo
 var initAtoms = map[string]string{
 	`password != "" && username == ""`:                      "passOnly",
 	`username != ""`:                                        "hasUser",
+	`password != ""`:                                        "passNonEmpty",
+	`username == ""`:                                        "userEmpty",
 	`option.ClientName != ""`:                               "hasName",
 	`option.EnableReplicaAZInfo && option.AZFromInfo`:       "azInfo",
 	`!option.DisableCache`:                                  "cache",
@@ -399,7 +401,7 @@ func genInitPlan() error {
 	b.WriteString("namespace Rv.Gen.InitPlan\n/-- literal command words of _newPipe -/\ninductive Kw | " + strings.Join(kcons, " | ") +
 		"\n  deriving DecidableEq, Repr\ndef Kw.str : Kw → String\n" + strings.Join(kstr, "\n") + "\n")
 	b.WriteString(`/-- whole ` + "`if`" + ` conditions of _newPipe that guard plan-building statements -/
-inductive Atom | passOnly | hasUser | hasName | azInfo | cache | trackNil | selDB | readonly | noTouch | noEvict | redirect | setInfo2 | setInfoNil
+inductive Atom | passOnly | hasUser | passNonEmpty | userEmpty | hasName | azInfo | cache | trackNil | selDB | readonly | noTouch | noEvict | redirect | setInfo2 | setInfoNil
   deriving DecidableEq, Repr
 /-- command words: literals or whitelisted expressions -/
 inductive Tok | lit (k : Kw) | password | username | clientName | selectDB | libName | libVer | setInfo0 | setInfo1 | trackingOpts
